@@ -1,4 +1,5 @@
 import gzip
+import codecs
 import zlib
 
 from io import StringIO, BytesIO, TextIOWrapper
@@ -191,9 +192,12 @@ class HttpSource(Source[Union[str,Iterable[str]]]):
                 return decomp(b.read()).decode(charset)
         else:
             def chunks(decomp,charset,size,bites):
+                #an incremental decoder because a multi-byte character can be split by a chunk boundary
+                decode = codecs.getincrementaldecoder(charset)().decode
                 with bites as b:
                     while chunk := b.read(size):
-                        yield decomp(chunk).decode(charset)
+                        yield decode(decomp(chunk))
+                yield decode(b'',True)
 
             return DelimSource(IterableSource(chunks(decomp,charset,chunk,bites))).read()
 
